@@ -117,11 +117,31 @@ def e10(ctx):
         if loop is None:
             return None
         it = loop.iter.args[0] if isinstance(loop.iter, ast.Call) and call_name(loop.iter) == "enumerate" and loop.iter.args else loop.iter
-        return dotted(it)
+        src = dotted(it)
+        owner = next((nm for nm, d in closures.items() if any(c is x for x in ast.walk(d))), None)
+        if owner and (owner, src) in param_of and len(param_of[(owner, src)]) == 1:
+            src = next(iter(param_of[(owner, src)]))
+        return src
     seqs = {OLD: set(), NEW: set()}
     marked = []
     # local closures of print_StringEdit belong to it (a flush helper defined inside the method)
     closures = {d.name: d for d in ast.walk(pe.node) if isinstance(d, ast.FunctionDef) and d is not pe.node}
+    # ... and so do same-class helper methods it calls that write marked characters (`self._write_replaced_chars(...)`); their
+    # parameters stand for the arguments print_StringEdit passes
+    from ..astx import class_helpers
+    param_of = {}
+    for h_ in class_helpers(m, sq, pe, depth=1)[1:]:
+        if h_.node.name in ("write_char", "write_start_quote", "write_end_quote", "print", "escape"):
+            continue
+        if not any(isinstance(c, ast.Call) and self_attr(c.func) == "write_char" and (kwarg(c, "removed") is not None or kwarg(c, "inserted") is not None)
+                   for c in walk_no_nested(h_.node)):
+            continue
+        closures[h_.node.name] = h_.node
+        hp = [p_ for p_ in func_params(h_.node) if p_ != "self"]
+        for call in walk_no_nested(pe.node):
+            if isinstance(call, ast.Call) and self_attr(call.func) == h_.node.name:
+                for p_, a_ in zip(hp, call.args):
+                    param_of.setdefault((h_.node.name, p_), set()).add(dotted(a_))
 
     def walk_pe():
         yield from walk_no_nested(pe.node)
@@ -192,9 +212,9 @@ def e10(ctx):
     if wq and main_loop is not None and rem_seq and add_seq:
         after = {src for c, side, pol, src in marked if c.lineno > main_loop.end_lineno and c.lineno < wq[0].lineno}
         for call in walk_no_nested(pe.node):
-            if isinstance(call, ast.Call) and isinstance(call.func, ast.Name) and call.func.id in closures \
-                    and main_loop.end_lineno < call.lineno < wq[0].lineno:
-                d = closures[call.func.id]
+            cname = call.func.id if isinstance(call, ast.Call) and isinstance(call.func, ast.Name) else (self_attr(call.func) if isinstance(call, ast.Call) else None)
+            if cname in closures and main_loop.end_lineno < call.lineno < wq[0].lineno:
+                d = closures[cname]
                 after |= {src for c, side, pol, src in marked if d.lineno <= c.lineno <= d.end_lineno}
         if {rem_seq, add_seq} <= after:
             ctx.proved("E10", F, W, wq[0], "pending runs flushed", "both pending runs are written after the loop and before the closing quote")
